@@ -24,6 +24,15 @@ pub struct Spec {
     /// per-block spacing in heartbeats (overrides slow_*): burn-fee profile inside a branch
     pub sp_a: Option<Vec<u64>>,
     pub sp_b: Option<Vec<u64>>,
+    /// genesis period of the world (12 = the ring never wraps inside a case; 3 = ring of six slots,
+    /// ids 6 and 12 sit in slot 0)
+    pub g: u64,
+    /// the node under test has not completed its initial loading (a block whose parent is unknown
+    /// is stored instead of being re-queued)
+    pub loading: bool,
+    /// the last block of branch b is replaced by an invalid twin (wrong burn fee, re-signed): a
+    /// chain that fails while it is being wound, after its earlier blocks were applied
+    pub invalid_last_b: bool,
 }
 
 pub struct Fork {
@@ -45,8 +54,8 @@ fn child(w: &mut World, parent: usize, gt: bool, spacing_hb: u64, salt: u64, lab
 }
 
 pub fn build(spec: &Spec) -> Result<Fork, String> {
-    let mut w = World::standard(12);
-    let mut bc = Cfg::new(12, HEARTBEAT);
+    let mut w = World::standard(spec.g);
+    let mut bc = Cfg::new(spec.g, HEARTBEAT);
     bc.browser = true; // builders bypass the density rule (they must produce children of violators)
     bc.consensus.prune_after_blocks = 1000;
     w.builder_cfg = Some(bc);
@@ -71,6 +80,17 @@ pub fn build(spec: &Spec) -> Result<Fork, String> {
         let b = child(&mut w, p, spec.gt_b[i], sp, 20 + i as u64, &format!("B{}", i + 1))?;
         bb.push(b);
         p = b;
+    }
+    if spec.invalid_last_b {
+        if let Some(&last) = bb.last() {
+            let mut blk = decode_block(&w.blocks[last].bytes);
+            blk.burnfee += 1;
+            blk.sign(&w.creator.private);
+            blk.generate().unwrap();
+            let parent = w.blocks[last].parent;
+            let idx = w.register(blk, parent, false, format!("B{}x", bb.len()));
+            *bb.last_mut().unwrap() = idx;
+        }
     }
     Ok(Fork { w, stem, aa, bb })
 }
@@ -147,8 +167,10 @@ fn seg_bf(w: &World, from_excl: usize, to: usize) -> u128 {
 
 fn run_order(fk: &Fork, order: &[usize], orphan_swap: Option<usize>, spec: &Spec, rep: &mut Report, seen: &mut BTreeSet<Hash>) {
     let w = &fk.w;
-    let mut n = LedgerNode::new(key(9), w.cfg.clone());
-    let ctx = json!({"stem_gt": spec.stem_gt, "gt_a": spec.gt_a, "gt_b": spec.gt_b, "slow_a": spec.slow_a, "slow_b": spec.slow_b, "spacing_a": spec.sp_a, "spacing_b": spec.sp_b, "order": order, "orphan_swap": orphan_swap});
+    let mut cfg = w.cfg.clone();
+    cfg.blockchain.initial_loading_completed = !spec.loading;
+    let mut n = LedgerNode::new(key(9), cfg);
+    let ctx = json!({"g": spec.g, "loading": spec.loading, "invalid_last_b": spec.invalid_last_b, "stem_gt": spec.stem_gt, "gt_a": spec.gt_a, "gt_b": spec.gt_b, "slow_a": spec.slow_a, "slow_b": spec.slow_b, "spacing_a": spec.sp_a, "spacing_b": spec.sp_b, "order": order, "orphan_swap": orphan_swap});
     for &i in fk.stem.iter() {
         match n.add_block_bytes(&w.blocks[i].bytes) {
             Outcome::Done(AddRes::AddedLongest) => {}
@@ -213,7 +235,16 @@ fn run_order(fk: &Fork, order: &[usize], orphan_swap: Option<usize>, spec: &Spec
             if !w.path(tip_after).iter().all(|&i| w.blocks[i].valid) {
                 rep.violate("M1/invalid-block-on-chain", format!("{:?}", trace), json!({"ctx": ctx, "trace": trace}));
             }
-            if !density_ok_lenient_chain(w, tip_after) {
+            // windows whose oldest block the node had already purged (2 x genesis period behind the
+            // tip; only possible at g=3, where that horizon equals the window length) cannot be
+            // evaluated by any node and are not judged
+            let stored: BTreeSet<Hash> = before.blocks.iter().map(|b| b.0).collect();
+            let path = w.path(tip_after);
+            let sparse = path.len() >= 6 && path.windows(6).any(|win| stored.contains(&w.blocks[win[0]].hash) && win.iter().filter(|&&i| w.blocks[i].has_gt).count() < 2);
+            if path.len() >= 6 && path.windows(6).any(|win| !stored.contains(&w.blocks[win[0]].hash)) {
+                rep.outcome("info:density-window-reaches-purged-blocks(not-judged)");
+            }
+            if sparse {
                 let tipwin_ok = density_ok_strict(w, tip_after);
                 rep.violate(if tipwin_ok { "M1/density-violated-inside-adopted-chain" } else { "M1/density-violated-at-tip" }, format!("adopted chain has a window of six blocks with < 2 golden tickets ({:?})", trace), json!({"ctx": ctx, "trace": trace}));
             }
@@ -240,8 +271,17 @@ fn run_order(fk: &Fork, order: &[usize], orphan_swap: Option<usize>, spec: &Spec
         }
         // index consistency whenever no orphan is pending
         if !orphan_used {
+            // after an attempt that failed while it was being wound the node may have run its
+            // 2 x genesis-period purge for the candidate's height (the C04 finding); those cases
+            // are keyed apart and matched instance by instance
+            let failed_attempt = seq.iter().take_while(|&&y| y != x).chain(std::iter::once(&x)).any(|&y| !w.blocks[y].valid);
             for (clause, detail) in super::c03::ledger_consistency(w, &n) {
-                rep.violate(&format!("index/{}", clause), format!("{} ({:?})", detail, trace), json!({"ctx": ctx, "trace": trace}));
+                if failed_attempt {
+                    let key = format!("index-after-failed-attempt/{}", clause);
+                    rep.violate_inst(&key, &format!("{}|{}|{:?}", key, ctx, trace), format!("{} ({:?})", detail, trace), json!({"ctx": ctx, "trace": trace}));
+                } else {
+                    rep.violate(&format!("index/{}", clause), format!("{} ({:?})", detail, trace), json!({"ctx": ctx, "trace": trace}));
+                }
             }
         }
     }
@@ -302,7 +342,7 @@ pub fn main(tier: Tier, replay: Option<String>) -> i32 {
                             if a == 0 && sa {
                                 continue;
                             }
-                            specs.push(Spec { stem_gt: st.clone(), a, b, gt_a: ga.clone(), gt_b: gb.clone(), slow_a: sa, slow_b: sb, sp_a: None, sp_b: None });
+                            specs.push(Spec { stem_gt: st.clone(), a, b, gt_a: ga.clone(), gt_b: gb.clone(), slow_a: sa, slow_b: sb, sp_a: None, sp_b: None, g: 12, loading: false, invalid_last_b: false });
                         }
                     }
                 }
@@ -317,17 +357,64 @@ pub fn main(tier: Tier, replay: Option<String>) -> i32 {
             for pb in 0..8u32 {
                 let sp_a: Vec<u64> = (0..2).map(|i| if pa >> i & 1 == 1 { 5 } else { 2 }).collect();
                 let sp_b: Vec<u64> = (0..3).map(|i| if pb >> i & 1 == 1 { 5 } else { 2 }).collect();
-                specs.push(Spec { stem_gt: st.clone(), a: 2, b: 3, gt_a: vec![true, true], gt_b: vec![true, false, true], slow_a: false, slow_b: false, sp_a: Some(sp_a), sp_b: Some(sp_b) });
+                specs.push(Spec { stem_gt: st.clone(), a: 2, b: 3, gt_a: vec![true, true], gt_b: vec![true, false, true], slow_a: false, slow_b: false, sp_a: Some(sp_a), sp_b: Some(sp_b), g: 12, loading: false, invalid_last_b: false });
             }
         }
     }
-    rep.bounds = json!({"branch_len_max": maxlen, "stems": "length 1,3,5 with every golden-ticket placement accepted in order", "gt_placement": "every subset on both branches", "burn_fee_profiles": ["normal(2hb)", "light(5hb)"], "orders": "every interleaving of the two branches + one adjacent child-before-parent swap per position"});
+    // the same grid at genesis period 3 (ring of six slots: ids 6 and 12 sit in slot 0, the windows
+    // wrap inside the cases), for a node that has and one that has not completed its initial
+    // loading; branches of up to three blocks in both tiers so that a stored child, its late
+    // parent and a failing grandchild all occur
+    {
+        let g3: Vec<Spec> = specs.iter().filter(|s| s.sp_a.is_none()).cloned().collect();
+        let mut extra = vec![];
+        // stems of four blocks as well (branches start at id 5: their second block sits in slot 0)
+        let mut stems3: Vec<Vec<bool>> = stems.clone();
+        stems3.extend(subsets(3));
+        for st in stems3.iter() {
+            for a in 0..=3usize {
+                for b in 3..=3usize {
+                    if a > 1 && !(tier.thorough && st.len() == 3) {
+                        continue; // b = 3 against a <= 1 (thorough: every a for the four-block stems)
+                    }
+                    if tier.thorough && st.len() != 3 && a <= 1 {
+                        continue; // thorough has these in the main grid already
+                    }
+                    for ga in subsets(a) {
+                        for gb in subsets(b) {
+                            extra.push(Spec { stem_gt: st.clone(), a, b, gt_a: ga.clone(), gt_b: gb.clone(), slow_a: false, slow_b: false, sp_a: None, sp_b: None, g: 12, loading: false, invalid_last_b: false });
+                        }
+                    }
+                }
+            }
+        }
+        for s in g3.into_iter().chain(extra.into_iter()) {
+            for loading in [false, true] {
+                for inv in [false, true] {
+                    if inv && s.b == 0 {
+                        continue;
+                    }
+                    let mut x = s.clone();
+                    x.g = 3;
+                    x.loading = loading;
+                    x.invalid_last_b = inv;
+                    specs.push(x);
+                }
+            }
+        }
+    }
+    rep.bounds = json!({"genesis_periods": [12, 3], "initial_loading_completed": "true; at g=3 also false", "branch_len_max": maxlen, "stems": "length 1,3,5 with every golden-ticket placement accepted in order", "gt_placement": "every subset on both branches", "burn_fee_profiles": ["normal(2hb)", "light(5hb)"], "orders": "every interleaving of the two branches + one adjacent child-before-parent swap per position"});
     rep.rule = "stem patterns x branch lengths x every golden-ticket subset x light/normal branch x every interleaving; distinct = observable state digests".into();
     rep.assumptions = vec![
         "start-up phase: M1 uses the lenient reading (only full six-block windows), M3 the code's strict reading; chains between the two readings are don't-cares".into(),
         "burn-fee profile: blocks are spaced >= 2 heartbeats so no routing work is needed; light = 5 heartbeats (lower burn fee)".into(),
         "builders bypass the density rule (browser flag) so that descendants of density-violating blocks exist; the node under test runs the normal configuration".into(),
     ];
+    if std::env::var("VERIF_C05_DEBUG_ONE").is_ok() {
+        // developer aid: one g=3 case, for reading the node's log
+        specs.retain(|s| s.g == 3 && s.stem_gt == vec![true, true, true, true] && s.a == 0 && s.b == 1 && !s.loading && !s.slow_b);
+        specs.truncate(1);
+    }
     let results = par_map(&specs, workers(), |_, spec| {
         let mut r = rep.child();
         let mut seen = BTreeSet::new();
